@@ -199,6 +199,22 @@ theorem ed2_idempotent (s : Screen) :
     · funext y x
       by_cases h : (decide (0 ≤ y) && decide (y < s.lines) && decide (x < s.columns)) = true <;> simp_all
 
+/-- CUP l c ; CUP l c = CUP l c in every state: with margins or without, in origin mode or not, ignored
+    (row outside the region in origin mode) or not -/
+open Gen in
+theorem cup_idempotent (s : Screen) (l c : Option Nat) :
+    cursorPosition (cursorPosition s l c) l c = cursorPosition s l c := by
+  cases hm : s.margins with
+  | none =>
+    simp [cursorPosition, hm, ensureVBounds, ensureHBounds, setCursorX, setCursorY]
+  | some tb =>
+    obtain ⟨t, b⟩ := tb
+    by_cases hd : s.mode DECOM = true
+    · by_cases hr : (nz l - 1 + t < t || nz l - 1 + t > b) = true
+      · simp [cursorPosition, hm, hd, hr]
+      · simp [cursorPosition, hm, hd, hr, ensureVBounds, ensureHBounds, setCursorX, setCursorY]
+    · simp [cursorPosition, hm, hd, ensureVBounds, ensureHBounds, setCursorX, setCursorY]
+
 /-- SO / SI: idempotent, last one wins, nothing but the active-set flag changes -/
 theorem so_si_laws (s : Screen) :
     shiftOut (shiftOut s) = shiftOut s ∧ shiftIn (shiftIn s) = shiftIn s ∧
